@@ -614,7 +614,7 @@ func GenSched(r *sim.Rand, tier string) sim.Script {
 			}
 			s.Tasks = append(s.Tasks, ops)
 		}
-		s.Strategy = []string{"rw", "rw", "pct", "rub"}[r.Intn(4)]
+		s.Strategy = []string{"rw", "rw", "pct", "rub", "stall"}[r.Intn(5)]
 		s.SchedSeed = r.U64()
 		return s
 	}
@@ -644,7 +644,7 @@ func GenSched(r *sim.Rand, tier string) sim.Script {
 			}
 			s.Tasks = append(s.Tasks, ops)
 		}
-		s.Strategy = []string{"rw", "rw", "pct", "rub"}[r.Intn(4)]
+		s.Strategy = []string{"rw", "rw", "pct", "rub", "stall"}[r.Intn(5)]
 		s.SchedSeed = r.U64()
 		return s
 	}
@@ -695,7 +695,7 @@ func GenSched(r *sim.Rand, tier string) sim.Script {
 		}
 		s.Tasks = append(s.Tasks, ops)
 	}
-	s.Strategy = []string{"rw", "rw", "pct", "rub"}[r.Intn(4)]
+	s.Strategy = []string{"rw", "rw", "pct", "rub", "stall"}[r.Intn(5)]
 	s.SchedSeed = r.U64()
 	return s
 }
